@@ -319,6 +319,44 @@ func (e *Engine) evalEmitOnce(runs []emitRun) []emitObl {
 				}
 			}
 			add(base+":backpatch", []string{"C04"}, all["in.l.Name"], "the back-patch must address the length field by its name")
+			// the back-patch (the last line that mentions the length field) is written in the configured
+			// byte order: that line differs between a little-endian and a big-endian path of the same shape
+			ok, detail := false, "no pair of LittleEndian / BigEndian paths with the same number of lines"
+			for _, pt := range r.paths {
+				if !pcHas(pt.pc, LE) || ok {
+					continue
+				}
+				for _, pf := range r.paths {
+					if !pcHas(pf.pc, Not(LE)) {
+						continue
+					}
+					lt, lf := strings.Split(flatText(pt.text), "\n"), strings.Split(flatText(pf.text), "\n")
+					if len(lt) != len(lf) {
+						continue
+					}
+					last := -1
+					for i, l := range lf {
+						if strings.Contains(l, "in.l.Name") {
+							last = i
+						}
+					}
+					if last < 0 {
+						detail = "no line mentions the length field"
+						continue
+					}
+					if lt[last] != lf[last] {
+						ok = true
+					} else {
+						ok = false
+						detail = "the back-patch line is the same for both byte orders: " + truncate(strings.TrimSpace(lf[last]), 200)
+					}
+					break
+				}
+			}
+			if ok {
+				detail = "back-patch line differs between the byte orders"
+			}
+			add(base+":backpatch-le", []string{"C04"}, ok, detail)
 		}
 	}
 	// encode / decode symmetry
@@ -410,4 +448,22 @@ func emitWords(t *Term) []string {
 		}
 	}
 	return out
+}
+
+// flatText: the emitted text with literal parts verbatim and every other atom as <key>; constant
+// strings.ReplaceAll wrappers (re-indentation) are applied.
+func flatText(t *Term) string {
+	switch {
+	case t.K == KStrLit:
+		return t.Name
+	case t.isOp("concat"):
+		var b strings.Builder
+		for _, a := range t.Args {
+			b.WriteString(flatText(a))
+		}
+		return b.String()
+	case t.K == KApp && t.Name == "strings.ReplaceAll" && len(t.Args) == 3 && t.Args[1].K == KStrLit && t.Args[2].K == KStrLit:
+		return strings.ReplaceAll(flatText(t.Args[0]), t.Args[1].Name, t.Args[2].Name)
+	}
+	return "<" + t.String() + ">"
 }
